@@ -8,7 +8,15 @@
 // split again), or copies its stdin to stdout (cat mode, arbitrary bytes).
 // The harness reads Output() with a scripted consumer (fast, odd chunk sizes,
 // slow, or starting only after the child has exited) and records the terminal
-// condition of Output() and the return value of Go.
+// condition of Output() and the return value of Go.  The child ends by exit N
+// or, in every 5th case, by a signal it sends to itself after its last write
+// and its report (ExitCode() is -1 then): Go must return an error either way
+// unless N is 0.
+//
+// A second engine (e2e.go) runs the same children through simpleshell.Go
+// against a harness HTTPS server that reads the request body on a script and
+// writes input to the response, some of it after the child has exited; there
+// the stream whose end is judged is the request body as the server sees it.
 package c14
 
 import (
@@ -42,12 +50,13 @@ const (
 )
 
 // pos is the position code shared by both alphabets.
+// It has period 251*26 = 6526, which the child uses to build long patterns.
 func pos(o int) int { return (o*7 + o/251) % 26 }
 
 // ---- case description -------------------------------------------------------
 
 type op struct {
-	K string // w1 w2 (write N bytes to fd 1/2), c1 c2 (close), E (drain stdin to EOF), R (report done), P (pre-announce report), S (sleep N µs)
+	K string // w1 w2 (write N bytes to fd 1/2), c1 c2 (close), E (drain stdin to EOF), I (read exactly N bytes of stdin and log them), R (report done), P (pre-announce report), S (sleep N µs)
 	N int
 	P int // pause after the op, µs
 }
@@ -78,6 +87,7 @@ type spec struct {
 	Interleave string
 	Ops        []op
 	Exit       int
+	Sig        string // "" or the name of the signal the child kills itself with instead of calling exit
 	ExitMode   string // immediate | linger | after-report
 	LingerMs   int
 	CloseEarly string
@@ -92,6 +102,44 @@ type spec struct {
 var sizeSet = []int{0, 1, 10, 4095, 4096, 4097, 65535, 65536, 65537, 2 * 65536, 4 * 65536}
 var smallSizeSet = []int{0, 1, 10, 4095, 4096, 4097, 65535, 65536}
 var exitSet = []int{0, 0, 0, 1, 3, 255}
+
+// sigSet: the signals a child ends itself with (every 5th pattern case and
+// every 5th cat case).  All of them terminate a process that has not asked
+// otherwise; SEGV and ABRT would also dump core (RLIMIT_CORE is set to 0).
+var sigSet = []string{"KILL", "TERM", "SEGV", "ABRT", "HUP", "USR1"}
+var sigNum = map[string]syscall.Signal{"KILL": syscall.SIGKILL, "TERM": syscall.SIGTERM, "SEGV": syscall.SIGSEGV, "ABRT": syscall.SIGABRT, "HUP": syscall.SIGHUP, "USR1": syscall.SIGUSR1}
+
+// sigFor picks the signal of case i of the case engine by index, so that every
+// signal gets the same share whatever the seed.
+func sigFor(i int) string {
+	switch {
+	case i%5 == 2:
+		return sigSet[(i/5)%len(sigSet)]
+	case i%25 == 9: // a cat-mode case
+		return sigSet[(i/25)%len(sigSet)]
+	}
+	return ""
+}
+
+// exitStmt is how the child program ends: exit N, or a signal to itself (the
+// fallback exit 99 is never reached unless the signal did not kill).
+func (s *spec) exitStmt() string {
+	if s.Sig == "" {
+		return fmt.Sprintf("exit %d", s.Exit)
+	}
+	if s.Flavor == "sh" {
+		return fmt.Sprintf("kill -s %s $$\nsleep 10\nexit 99", s.Sig)
+	}
+	return fmt.Sprintf("$SIG{%s} = 'DEFAULT'; kill('%s', $$); select(undef, undef, undef, 10); exit 99", s.Sig, s.Sig)
+}
+
+// how the case is meant to end, for messages
+func (s *spec) exitDesc() string {
+	if s.Sig != "" {
+		return "SIG" + s.Sig
+	}
+	return "exit " + strconv.Itoa(s.Exit)
+}
 
 func pick(rng *rand.Rand, s []int) int { return s[rng.IntN(len(s))] }
 
@@ -272,6 +320,9 @@ func genSpec(r *mon.Run, i int) *spec {
 			s.LingerMs = 1 + rng.IntN(50)
 		}
 		s.Cons = genConsumer(rng, n, n <= pipeCap, kind)
+		if s.Sig = sigFor(i); s.Sig != "" {
+			s.Exit = 0
+		}
 		return s
 	}
 
@@ -386,12 +437,15 @@ func genSpec(r *mon.Run, i int) *spec {
 	s.ShConc = rng.IntN(2) == 0
 	fits := s.NOut <= pipeCap && s.NErr <= pipeCap
 	s.Cons = genConsumer(rng, s.NOut+s.NErr, fits, kind)
+	if s.Sig = sigFor(i); s.Sig != "" {
+		s.Exit = 0
+	}
 	return s
 }
 
 func (s *spec) sig() string {
-	return fmt.Sprintf("%s|%s|%d|%d|%s|%s|%s|%d|%s|%d|%s|%s|%d|%v|%v|%s|%v|%v|%d",
-		s.Mode, s.Flavor, s.NOut, s.NErr, s.WOut, s.WErr, s.Interleave, s.Exit, s.ExitMode, s.LingerMs, s.CloseEarly,
+	return fmt.Sprintf("%s|%s|%d|%d|%s|%s|%s|%d%s|%s|%d|%s|%s|%d|%v|%v|%s|%v|%v|%d",
+		s.Mode, s.Flavor, s.NOut, s.NErr, s.WOut, s.WErr, s.Interleave, s.Exit, s.Sig, s.ExitMode, s.LingerMs, s.CloseEarly,
 		s.Stdin.Kind, s.Stdin.N, s.Stdin.Chunks, s.Stdin.DelaysUs, s.Cons.Kind, s.Cons.Chunks, s.Cons.DelaysUs, s.CatRead)
 }
 
@@ -426,8 +480,8 @@ while (1) {
 close($seen);
 put('report', "out=$wr err=0 done\n");
 select(undef, undef, undef, %d / 1e3) if %d;
-exit %d;
-`, s.CatRead, s.CatPauseUs, s.CatPauseUs, s.LingerMs, s.LingerMs, s.Exit)
+%s;
+`, s.CatRead, s.CatPauseUs, s.CatPauseUs, s.LingerMs, s.LingerMs, s.exitStmt())
 		return "/usr/bin/perl", b.String()
 	}
 	if s.Flavor == "sh" {
@@ -465,12 +519,12 @@ exit %d;
 		if s.LingerMs > 0 {
 			fmt.Fprintf(&b, "sleep 0.%03d\n", s.LingerMs)
 		}
-		fmt.Fprintf(&b, "exit %d\n", s.Exit)
+		fmt.Fprintf(&b, "%s\n", s.exitStmt())
 		return "/bin/sh", b.String()
 	}
 	fmt.Fprintf(&b, "my $dir = '%s';\n%s", dir, perlCommon)
 	fmt.Fprintf(&b, `$| = 1;
-sub gen { my ($n, $base) = @_; my $s = ''; for (my $o = 0; $o < $n; $o++) { $s .= chr($base + ($o * 7 + int($o / 251)) %% 26); } return $s; }
+sub gen { my ($n, $base) = @_; my $m = $n < 6526 ? $n : 6526; my $s = ''; for (my $o = 0; $o < $m; $o++) { $s .= chr($base + ($o * 7 + int($o / 251)) %% 26); } return $n <= $m ? $s : substr($s x (int($n / $m) + 1), 0, $n); }
 my @d = ('', gen(%d, 97), gen(%d, 65));
 my @off = (0, 0, 0);
 my @fh = (undef, \*STDOUT, \*STDERR);
@@ -503,13 +557,16 @@ for (my $i = 0; $i < @plan; $i += 3) {
 	elsif ($k eq 'c1') { close(STDOUT); }
 	elsif ($k eq 'c2') { close(STDERR); }
 	elsif ($k eq 'E') { while (1) { my $b; my $r = sysread(STDIN, $b, 65536); next if !defined $r && $!{EINTR}; last if !$r; } }
+	elsif ($k eq 'I') { my $need = $n; open(my $seen, '>>', "$dir/stdin.seen") or exit 96; binmode($seen);
+		while ($need > 0) { my $b; my $r = sysread(STDIN, $b, $need > 65536 ? 65536 : $need); next if !defined $r && $!{EINTR}; if (!$r) { close($seen); report('partial'); exit 95; } print $seen $b; $need -= $r; }
+		close($seen) or exit 96; }
 	elsif ($k eq 'R') { report('done'); }
 	elsif ($k eq 'P') { put('report', "out=%d err=%d pre\n"); }
 	elsif ($k eq 'S') { select(undef, undef, undef, $n / 1e6); }
 	select(undef, undef, undef, $p / 1e6) if $p;
 }
-exit %d;
-`, s.NOut, s.NErr, s.Exit)
+%s;
+`, s.NOut, s.NErr, s.exitStmt())
 	return "/usr/bin/perl", b.String()
 }
 
@@ -730,6 +787,8 @@ type result struct {
 	procKnown    bool
 	procExit     int
 	procSignaled bool
+	procSignal   syscall.Signal
+	procState    string
 	exitedOnOwn  bool
 	seen         []byte
 	handed       int  // stdin bytes the shell took from the reader given to SetInput
@@ -892,8 +951,10 @@ func runCase(s *spec, dir string, bound time.Duration) (res *result) {
 	if res.goReturned && cmd.ProcessState != nil {
 		res.procKnown = true
 		res.procExit = cmd.ProcessState.ExitCode()
+		res.procState = cmd.ProcessState.String()
 		if ws, ok := cmd.ProcessState.Sys().(syscall.WaitStatus); ok && ws.Signaled() {
 			res.procSignaled = true
+			res.procSignal = ws.Signal()
 		}
 	}
 	if !res.killed {
@@ -962,6 +1023,15 @@ func commonPrefix(a, b []byte) int {
 	return n
 }
 
+// endedAsPlanned: did the child end the way the case says (exit status, or
+// death by the planned signal)?
+func (s *spec) endedAsPlanned(exit int, signaled bool, sig syscall.Signal) bool {
+	if s.Sig != "" {
+		return signaled && sig == sigNum[s.Sig]
+	}
+	return !signaled && exit == s.Exit
+}
+
 func judge(s *spec, res *result) (v verdict) {
 	add := func(key, f string, a ...any) { v.viol = append(v.viol, finding{key, fmt.Sprintf(f, a...)}) }
 	if res.setupErr != "" {
@@ -980,7 +1050,7 @@ func judge(s *spec, res *result) (v verdict) {
 			lower = true
 		case "pre":
 			if res.procKnown {
-				known = res.procExit == s.Exit && !res.procSignaled
+				known = s.endedAsPlanned(res.procExit, res.procSignaled, res.procSignal)
 			} else {
 				known = s.Flavor == "perl" && res.exitedOnOwn && !res.killed
 			}
@@ -1067,14 +1137,16 @@ func judge(s *spec, res *result) (v verdict) {
 		v.inconcl = append(v.inconcl, fmt.Sprintf("case %d: the child left no usable account of what it wrote (report %+v, exit known %v code %d)", s.Index, res.rep, res.procKnown, res.procExit))
 	}
 	if !errors.Is(res.termErr, io.EOF) {
-		add("output-ends-with-error", "Output() ended with %q instead of io.EOF although the child ran and exited on its own (exit status %d)", errStr(res.termErr), s.Exit)
+		add("output-ends-with-error", "Output() ended with %q instead of io.EOF although the child ran and ended on its own (%s)", errStr(res.termErr), s.exitDesc())
 	}
 	switch {
 	case res.goHung:
 		v.inconcl = append(v.inconcl, fmt.Sprintf("case %d: Go had not returned when the bound expired although Output() had ended and the input was closed", s.Index))
-	case res.goReturned && s.Exit != 0 && !res.killed:
-		if res.procKnown && (res.procExit != s.Exit || res.procSignaled) {
-			v.inconcl = append(v.inconcl, fmt.Sprintf("case %d: child exited %d (signaled %v), planned %d", s.Index, res.procExit, res.procSignaled, s.Exit))
+	case res.goReturned && (s.Exit != 0 || s.Sig != "") && !res.killed:
+		if res.procKnown && !s.endedAsPlanned(res.procExit, res.procSignaled, res.procSignal) {
+			v.inconcl = append(v.inconcl, fmt.Sprintf("case %d: child exited %d (signaled %v: %v), planned %s", s.Index, res.procExit, res.procSignaled, res.procSignal, s.exitDesc()))
+		} else if res.goErr == nil && s.Sig != "" {
+			add("signal-death-not-reported", "the child was killed by SIG%s (wait status: %s) and Go returned nil", s.Sig, res.procState)
 		} else if res.goErr == nil {
 			add("nonzero-exit-not-reported", "the child exited with status %d and Go returned nil", s.Exit)
 		}
@@ -1100,7 +1172,7 @@ func witness(s *spec, res *result, v verdict, dir string) map[string]any {
 		"mode": s.Mode, "flavor": s.Flavor, "child_script": text,
 		"stdout_bytes_planned": s.NOut, "stderr_bytes_planned": s.NErr,
 		"write_sizes": s.WOut + "/" + s.WErr, "interleave": s.Interleave, "close_early": s.CloseEarly,
-		"exit_status": s.Exit, "exit_mode": s.ExitMode, "linger_ms": s.LingerMs,
+		"exit_status": s.Exit, "killed_by_own_signal": s.Sig, "wait_status": res.procState, "exit_mode": s.ExitMode, "linger_ms": s.LingerMs,
 		"stdin": s.Stdin, "consumer": s.Cons,
 		"consumer_started_after_child_exit": res.afterExit,
 		"stdout_bytes_received":             v.gotOut, "stderr_bytes_received": v.gotErr,
@@ -1117,13 +1189,30 @@ func witness(s *spec, res *result, v verdict, dir string) map[string]any {
 }
 
 func Run(r *mon.Run) {
-	r.Rule = "one case = one generated child program (perl syswrite plan, or sh+dd) run through simpleshell.NewCmdShell with one scripted consumer of Output() and one stdin arrangement; stdout carries a–z and stderr A–Z, byte at offset o = base+(o*7+o/251)%26, so the merged stream is split and each side compared with what the child reports having written; cat-mode cases (every 5th) send PRNG bytes through SetInput and compare the child's stdin log and Output() with them. distinct_nontrivial = distinct (mode, flavor, sizes, write sizes, interleaving, exit status/mode, stdin arrangement, consumer schedule) signatures among cases that move at least one byte"
+	r.Rule = "one case = one generated child program (perl syswrite plan, or sh+dd) run through simpleshell.NewCmdShell with one scripted consumer of Output() and one stdin arrangement; stdout carries a–z and stderr A–Z, byte at offset o = base+(o*7+o/251)%26, so the merged stream is split and each side compared with what the child reports having written; cat-mode cases (every 5th) send PRNG bytes through SetInput and compare the child's stdin log and Output() with them; every 5th pattern case and every 5th cat case ends by a signal to itself (KILL TERM SEGV ABRT HUP USR1 in turn) instead of exit, and Go must then return an error. Engine e2e: the same pattern children run through simpleshell.Go against a harness HTTPS server (HTTP/1.1 and HTTP/2 alternate) whose handler reads the request body on a script (keeps up for a while, then lags, reads nothing from the child's exit until some time after a few lines of late input, then reads the rest), feeds early input the child reads and logs, and ends the response after the request body has ended; the bytes the server read up to the end of the request body, split by alphabet, must be what the child reports having written, the body must end cleanly, and simpleshell.Go must return an error for a non-zero exit or a death by signal. distinct_nontrivial = distinct (mode, flavor, sizes, write sizes, interleaving, exit status/mode, stdin arrangement, consumer schedule) signatures among cases that move at least one byte"
 	r.Assumptions = []string{
 		"the child's own account (report file written through rename, exit status 97/98 on a failed or interrupted write) is the ground truth of what it wrote",
 		"child exit is observed through /proc/<pid>/stat (zombie or gone)",
 		"grand-children that keep the pipes open are not generated",
 		"Linux pipe capacity 64 KiB: the consumer that starts after the child's exit degrades to a late starter (150 ms) when the output cannot fit",
 		"bound per case 30 s; a case whose Output() has not ended by then is re-run alone with 60 s (at most 2 per run)",
+		"a child that ends by a signal sends it to itself (perl kill / sh kill -s) after its last write and its report; the wait status seen by exec.Cmd confirms the death by that signal before the case counts",
+		"e2e: the harness HTTPS server (net/http, fresh self-signed P-256 certificate, HTTP/1.1 or HTTP/2 by case) enables full duplex and flushes the header at once like the /io handler; it ends the response only after the request body has ended, so that an unread rest is never the server's doing; the process outlives every simpleshell.Go call (library use)",
+		"e2e: child exit is observed through /proc before the late input is sent; what the server read is compared only once the request body has reported its end (30 s bound, then the same re-run rule)",
+	}
+	// SEGV and ABRT deaths must not leave core files behind
+	syscall.Setrlimit(syscall.RLIMIT_CORE, &syscall.Rlimit{Cur: 0, Max: 0})
+	runCaseEngine(r)
+	runE2EEngine(r)
+	// no process of ours may be left behind
+	if !r.Replaying() {
+		r.Count("orphans_killed", int64(reapOrphans(r.Work)))
+	}
+}
+
+func runCaseEngine(r *mon.Run) {
+	if !r.WantEngine(engine) {
+		return
 	}
 	n := r.N(120, 3000)
 	var mu sync.Mutex
@@ -1157,7 +1246,21 @@ func Run(r *mon.Run) {
 				r.Count("slow_reader_cases", 1)
 			}
 			r.Count("consumer_"+s.Cons.Kind+"_cases", 1)
-			if s.Exit != 0 {
+			if s.Sig != "" {
+				r.Count("signal_exit_planned_cases", 1)
+				// counted when the wait status says so, not because it was planned
+				if res.procKnown && s.endedAsPlanned(res.procExit, res.procSignaled, res.procSignal) {
+					r.Count("signal_exit_cases", 1)
+					r.Count("signal_exit_cases_"+s.Sig, 1)
+					r.Count("signal_exit_cases_"+s.Mode, 1)
+					if res.goErr != nil {
+						r.Count("signal_exit_reported", 1)
+					}
+					if v.complete {
+						r.Count("signal_exit_cases_complete_and_exact", 1)
+					}
+				}
+			} else if s.Exit != 0 {
 				r.Count("nonzero_exit_cases", 1)
 				if res.goReturned && res.goErr != nil {
 					r.Count("nonzero_exit_reported", 1)
@@ -1210,14 +1313,14 @@ func Run(r *mon.Run) {
 				continue
 			}
 			seen[f.key] = true
-			r.Violate(engine, i, f.key, fmt.Sprintf("case %d (%s, %d/%d bytes, exit %d %s, consumer %s): %s", i, s.Mode, s.NOut, s.NErr, s.Exit, s.ExitMode, s.Cons.Kind, f.what), witness(s, res, v, dir))
+			r.Violate(engine, i, f.key, fmt.Sprintf("case %d (%s, %d/%d bytes, %s %s, consumer %s): %s", i, s.Mode, s.NOut, s.NErr, s.exitDesc(), s.ExitMode, s.Cons.Kind, f.what), witness(s, res, v, dir))
 		}
 		for _, m := range v.inconcl {
 			r.Inconclusive(m)
 		}
 		if v.timeout {
 			if retry {
-				r.Violate(engine, i, "output-stream-does-not-end", fmt.Sprintf("case %d (%s, %d/%d bytes, exit %d, consumer %s): Output() had not ended %s after the start, also when the case ran alone; %d stdout and %d stderr bytes had arrived", i, s.Mode, s.NOut, s.NErr, s.Exit, s.Cons.Kind, bound, v.gotOut, v.gotErr), witness(s, res, v, dir))
+				r.Violate(engine, i, "output-stream-does-not-end", fmt.Sprintf("case %d (%s, %d/%d bytes, %s, consumer %s): Output() had not ended %s after the start, also when the case ran alone; %d stdout and %d stderr bytes had arrived", i, s.Mode, s.NOut, s.NErr, s.exitDesc(), s.Cons.Kind, bound, v.gotOut, v.gotErr), witness(s, res, v, dir))
 			}
 			return true
 		}
@@ -1261,13 +1364,15 @@ func Run(r *mon.Run) {
 		}
 		one(i, 2*bound, true)
 	}
-	// no process of ours may be left behind
-	r.Count("orphans_killed", int64(reapOrphans(r.Work)))
-
 	r.Floor("cases", int64(n*9/10))
 	r.Floor("consumer_started_after_exit_cases", int64(n/10))
 	r.Floor("slow_reader_cases", int64(n/10))
 	r.Floor("nonzero_exit_cases", int64(n/5))
+	r.Floor("signal_exit_cases", int64(n/6))
+	for _, sg := range sigSet {
+		r.Floor("signal_exit_cases_"+sg, int64(n/60))
+	}
+	r.Floor("signal_exit_cases_complete_and_exact", int64(n/10))
 	r.Floor("stdin_cases", int64(n/6))
 	r.Floor("stdin_bytes", 100_000)
 	r.Floor("stdout_bytes_received", 1_000_000)
